@@ -51,15 +51,15 @@ func (h *History) OracleC35(d *Decoded, o Obs, pre, after []QBucket) (fails []Ve
 		}
 		pre, when = after, "after the shutdown completed"
 		// every queued row must have been applied by the shutdown
-		type rowKey struct {
-			epoch int64
-			vals  string
-		}
+		// rows are identified by their values (every generated row carries its serial number): the time a
+		// variable-length record comes back with is rounded by the interval-ticks encoding, possibly into
+		// the previous second (another property's business)
+		type rowKey struct{ vals string }
 		have := map[string]map[rowKey]int{}
 		for i := range after {
 			m := map[rowKey]int{}
 			for _, r := range after[i].Rows {
-				m[rowKey{r.Epoch, r.Vals}]++
+				m[rowKey{r.Vals}]++
 			}
 			have[after[i].Key] = m
 		}
@@ -73,7 +73,7 @@ func (h *History) OracleC35(d *Decoded, o Obs, pre, after []QBucket) (fails []Ve
 					continue // a fixed slot may have been overwritten by a later queued row
 				}
 				for _, r := range bt.Rows {
-					q := rowKey{r.Epoch, hex.EncodeToString(r.Vals)}
+					q := rowKey{hex.EncodeToString(r.Vals)}
 					if have[b.Key][q] == 0 {
 						fails = append(fails, Verdict{false, "", fmt.Sprintf("bucket %s: a row queued before the shutdown is not there after it", b.Key)})
 					}
